@@ -19,7 +19,7 @@ BOUNDS = dict(quick=dict(structures="simple cubic s+p on one site (O_h x TR, 4 W
                          "tetragonal cell, one site, s+pz (D_4h, 7 R-vectors); diamond-type fcc cell, s on the two equivalent sites (O_h, one block with two points)", matrices="Ham (all structures), AA (structure 1)", data="symbolic complex R-space matrices with X(-R)=X(R)^dagger",
                          kpoints="2 generic rational k per structure, every operation of the resulting point group", spectrum="power sums tr H(k)^n, n=1..min(nb,3)"),
               thorough=dict(structures="as quick + bcc with a magnetic moment along z, spinor s orbital (2 WF, SS matrix); zincblende-type fcc cell, s on both sites (T_d x TR)",
-                            matrices="Ham, AA, SS", data="symbolic", kpoints="3 per structure", spectrum="n=1..nb"))
+                            matrices="Ham on every structure; Ham+AA on simple cubic, CsCl, tetragonal, diamond, zincblende; Ham+SS on the magnetic bcc", data="symbolic", kpoints="2..3 per structure", spectrum="n=1..min(nb,3)", subgroups="identity alone (CsCl, diamond) and an index-2 subgroup (tetragonal, simple cubic, zincblende) through use_symmetries_index"))
 EXPLANATION = ("The real System_R.symmetrize (space group by irrep/spglib and projections run concretely) is executed on symbolic Hermitian real-space matrices. z3 decides, for all "
                "matrix data: Hermiticity X(-R)=X(R)^dagger of the result, idempotence of a second symmetrisation (modulo exactly-zero padding of the R-set), equality of the spectrum at "
                "g.k and k through the power sums tr H(k)^n (tolerance 1e-9, |data|<=1), and for AA the symmetry of the k-resolved trace; centre mapping is a concrete check.")
@@ -295,7 +295,16 @@ def cases(tier, seed):
     if not q:
         out += [Case("zb_ss Ham", case_struct, dict(name="zb_ss", mats=["Ham"], nk=2, npow=2), timeout=3600),
                 Case("bcc_mag Ham+SS", case_struct, dict(name="bcc_mag", mats=["Ham", "SS"], nk=2, npow=2), timeout=3600),
-                Case("sc_sp Ham+AA", case_struct, dict(name="sc_sp", mats=["Ham", "AA"], nk=1, npow=1), timeout=3600)]
+                Case("sc_sp Ham+AA", case_struct, dict(name="sc_sp", mats=["Ham", "AA"], nk=1, npow=1), timeout=3600),
+                Case("cscl_ss Ham+AA", case_struct, dict(name="cscl_ss", mats=["Ham", "AA"], nk=2, npow=2), timeout=3600),
+                Case("diamond_ss Ham+AA", case_struct, dict(name="diamond_ss", mats=["Ham", "AA"], nk=1, npow=1), timeout=3600),
+                Case("zb_ss Ham+AA", case_struct, dict(name="zb_ss", mats=["Ham", "AA"], nk=1, npow=1), timeout=3600),
+                Case("tet_spz Ham nk=3 npow=3", case_struct, dict(name="tet_spz", mats=["Ham"], nk=3, npow=3), timeout=3600),
+                Case("cscl_ss Ham nk=3 npow=2", case_struct, dict(name="cscl_ss", mats=["Ham"], nk=3, npow=2), timeout=3600),
+                Case("diamond_ss Ham nk=3 npow=2", case_struct, dict(name="diamond_ss", mats=["Ham"], nk=3, npow=2), timeout=3600),
+                Case("diamond_ss Ham subgroup=E (use_symmetries_index)", case_subgroup, dict(name="diamond_ss", want="E"), timeout=3600),
+                Case("sc_sp Ham subgroup of index 2 (use_symmetries_index)", case_subgroup, dict(name="sc_sp", want="half"), timeout=3600),
+                Case("zb_ss Ham subgroup of index 2 (use_symmetries_index)", case_subgroup, dict(name="zb_ss", want="half"), timeout=3600)]
     return out
 
 
